@@ -1573,6 +1573,17 @@ def fixed_histories():
                     'script': [('ok', True, False, 3)],
                     'events': [('probe', a), ('probe', b), ('req', [a, b]), ('ref', t0 + 40 * Q), ('probe', b), ('ref', None),
                                ('probe', b), ('ref', t0)]})
+    # an on_error placeholder with cache: True AND authorize_stale: True (502 of the real WMSSource): over a stale tile
+    # the old tile is served and kept (time stamp unchanged, so the next request asks the upstream again); where
+    # nothing is cached yet (tile c) the placeholder is stored
+    for meta in (False, True):
+        for backend, wms in (('file', False), ('sqlite', False), ('file', True)):
+            out.append({'backend': backend, 'wms': wms, 'meta': meta, 'init': [(a, INIT, t0), (b, INIT + 1, t0 + 8 * Q)],
+                        'rule': {'time': BASE + 2}, 'expire': None, 'now': t0 + 10 * Q, 'ref': None,
+                        'script': [('ok', True, True, WMS_COLOUR[502]), ('ok', True, True, WMS_COLOUR[502]),
+                                   ('ok', True, False, 7), ('ok', True, True, WMS_COLOUR[502])],
+                        'events': [('req', [a]), ('probe', a), ('req', [a]), ('probe', a), ('req', [a]), ('probe', a),
+                                   ('req', [a, b]), ('req', [c]), ('probe', c), ('req', [c])]})
     # two requests for the same stale tile: the second decides before the first has stored and re-checks under the lock
     for backend in ('file', 'filelink', 'mbtiles', 'sqlite'):
         for meta in (False, True):
